@@ -355,6 +355,34 @@ def accessor(ctx):
     ctx.sample(sub, {"cube": "all 541 rank patterns of 5 points (+ all-nodata padding pixels)", "variants": "int16/float32 x nodata attr x numpy/dask"})
 
 
+def attr_histories(ctx):
+    """mktrend() on one long-lived object whose nodata attribute is edited in place between calls (every history of
+    settings up to depth 3): always the result a fresh object with the current attributes gives."""
+    import pandas as pd
+    import xarray as xr
+    from .. import histories
+    sub = "attr_histories"
+    n = 5
+    time = pd.date_range("2000-01-01", periods=n, freq="10D")
+    rows = [[3, 1, 4, 1, 5], [9, 7, 5, 3, 1], [1, 2, 2, 3, 3], [-9999] * n, [0] * n, [7] * n, [0, 7, 0, 7, 7], [2, 2, 2, 2, 2]]
+    for dtype in ("int16", "float32"):
+        data = np.array(rows).astype(dtype).reshape(2, 4, n)
+
+        def make():
+            return xr.DataArray(data.copy(), dims=("y", "x", "time"), coords={"time": time})
+
+        def op(da):
+            ds = da.hdc.algo.mktrend()
+            return [ds[v].values.copy() for v in ("tau", "pvalue", "slope", "trend")]
+
+        def same(a, b):
+            return all(np.array_equal(x, y, equal_nan=True) for x, y in zip(a, b))
+
+        h = histories.explore(make, "nodata", [histories.ABSENT, -9999, 0, 7], op, same, 3, ctx, sub, f"mktrend[{dtype}]")
+        ctx.note_add("attr_histories", h)
+    ctx.sample(sub, {"attr": "nodata", "values": ["<absent>", -9999, 0, 7], "depth": 3, "pixels": rows})
+
+
 def run(ctx):
     st = _st()
     z = np.array([[1, 2, 3]], dtype="int16")
@@ -380,6 +408,7 @@ def run(ctx):
     ctx.note("max_points", maxn)
     long_series(ctx)
     accessor(ctx)
+    attr_histories(ctx)
 
 
 def replay(sub, case, p):
@@ -393,5 +422,7 @@ def replay(sub, case, p):
         for arr in (V, T):
             x = arr[0]
             run_entries(np.ascontiguousarray(arr), p, sub, [ref_mk([int(v) for v in x])], entries=("gu_i16",))
+    elif case["kind"] == "attr_history":
+        attr_histories(p)
     else:
         accessor(p)
